@@ -8,6 +8,9 @@ Bounded-exhaustive exploration with an exception-type oracle (the only model nee
   generated      the C07 custom-pattern set (<= k fields, every width, five delimiter styles, embedded patterns)
   builtin        every built-in pattern and every standard single-letter pattern (several cultures)
   templates      era / calendar / year-of-era patterns under every template calendar (with_calendar)
+  extreme-templates  generated patterns under with_template_value for extreme templates (day 31 / 30 / leap day, last
+                 day of a leap year and of the last year of every calendar, range ends, 23:59:59.999999999), fed texts
+                 that vary every PRESENT field over its whole range (every month, every day, leap and non-leap years)
 
 `create*` must return a pattern or raise InvalidPatternError - nothing else.  Every pattern that was created is then
 fed input texts: the formatted value alphabet, EVERY single-edit mutation of some of those texts (delete each position;
@@ -374,6 +377,149 @@ def template_worker(task):
 
 
 # ---------------------------------------------------------------------------------------------------------------
+# extreme template values: absent fields come from a template that is only valid for SOME values of the present fields
+# ---------------------------------------------------------------------------------------------------------------
+
+TIME_MAX = (23, 59, 59, 999_999_999)
+
+
+@functools.lru_cache(maxsize=None)
+def leapish_year(cid):
+    """A present-day year of the calendar whose year is longest among its neighbours (public API only)."""
+    cal = T.Cal.get(cid)
+    base = {"mundi": 5784, "hegirae": 1445, "persico": 1402, "martyrum": 1740, "bahai": 180, "common": 2024}[T.era_family(cid)]
+    best, best_len = base, -1
+    for y in range(base, base + 8):
+        if cal.min_year <= y <= cal.max_year:
+            n = cal.sys.get_days_in_year(y)
+            if n > best_len:
+                best, best_len = y, n
+    return best
+
+
+def last_day(cid, y):
+    cal = T.Cal.get(cid)
+    m = cal.months_in_year(y)
+    return (cid, y, m, cal.days_in_month(y, m))
+
+
+@functools.lru_cache(maxsize=None)
+def extreme_templates(kind, cid="ISO"):
+    """Template tuples whose own field values are extreme: day 31 / 30 / leap day, last day of a (leap) year, range ends."""
+    if kind == "annual":
+        return ((1, 31), (3, 31), (2, 29), (12, 31))
+    if kind == "time":
+        return (TIME_MAX, (12, 0, 0, 1))
+    if cid == "ISO":
+        dates = (("ISO", 2024, 2, 29), ("ISO", 2000, 1, 31), ("ISO", 9999, 12, 31), ("ISO", -9998, 1, 1), ("ISO", 2023, 12, 31), ("ISO", 2024, 3, 30))
+    else:
+        cal = T.Cal.get(cid)
+        ly = leapish_year(cid)
+        cands = [last_day(cid, ly), last_day(cid, cal.max_year), (cid, cal.min_year, 1, 1)]
+        m1 = cal.days_in_month(ly, 1)
+        cands.append((cid, ly, 1, m1))
+        dates = tuple(dict.fromkeys(cands))
+    if kind == "date":
+        return dates
+    if kind == "instant":
+        return tuple(d + TIME_MAX for d in dates[:4] if d[1] != -9998) + (("ISO", -9998, 1, 1, 0, 0, 0, 0),)
+    return tuple(d + TIME_MAX for d in dates)
+
+
+@functools.lru_cache(maxsize=None)
+def field_grid(kind, cid="ISO"):
+    """Library values that vary every present field over its whole range (every month, every day 1..31, leap and
+    non-leap years, range ends; every hour / minute) - the seeds of the texts parsed under the extreme templates."""
+    out = []
+    if kind == "annual":
+        iso = T.Cal.get("ISO")
+        vs = [(m, d) for m in range(1, 13) for d in range(1, iso.days_in_month(2000, m) + 1)]
+    elif kind == "time":
+        vs = [(h, mi, sec, ns) for h in range(24) for (mi, sec, ns) in ((0, 0, 0), (59, 59, 999_999_999))]
+        vs += [(12, mi, 30, 500_000_000) for mi in range(60)] + [(0, 30, sec, 1) for sec in range(60)]
+    else:
+        cal = T.Cal.get(cid)
+        if cid == "ISO":
+            years = [2024, 2023, 2000, 1900, -9998, 9999, 1, 0]
+        else:
+            ly = leapish_year(cid)
+            years = [y for y in dict.fromkeys((ly, ly + 1, ly - 1, cal.min_year, cal.max_year, 2000)) if cal.min_year <= y <= cal.max_year]
+        if kind != "date":
+            years = years[:2] + years[-4:-2] if cid == "ISO" else years[:3]
+        dates = []
+        for y in years:
+            for m in range(1, cal.months_in_year(y) + 1):
+                dim = cal.days_in_month(y, m)
+                for d in sorted({1, 15, 28, 29, 30, 31, dim}):
+                    if d <= dim:
+                        dates.append((cid, y, m, d))
+        if kind == "date":
+            vs = dates
+        else:
+            if kind == "instant":
+                dates = [d for d in dates if d[0] == "ISO"]
+            vs = [d + (0, 0, 0, 0) for d in dates] + [d + TIME_MAX for d in dates[::7]] + [dates[0] + (h, 30, 0, 0) for h in range(24)]
+    for v in vs:
+        try:
+            out.append(T.to_lib(kind, v))
+        except Exception as e:  # noqa: BLE001
+            if exc_origin(e) == "harness":
+                raise
+    return tuple(out)
+
+
+EXTREME_DELIMS = ("", "q", "fixed", "T", "ld+lt")
+
+
+def extreme_worker(task):
+    kind, tier, lo, hi, cids = task
+    acc = Acc()
+    pats = [p for p in c07.pattern_list(kind, tier) if p.delim in EXTREME_DELIMS][lo:hi]
+    for pat in pats:
+        base = try_create(acc, kind, pat.text, "")
+        if base is None:
+            continue
+        for cid in cids:
+            if cid != "ISO" and not (set(pat.names) & G.DATE_FIELD_NAMES):
+                continue
+            texts = []
+            seen = set()
+            for lv in field_grid(kind, cid):
+                try:
+                    t = base.format(lv)
+                except Exception as e:  # noqa: BLE001  (month 13+ with text months etc.: C07's side condition)
+                    if exc_origin(e) == "harness":
+                        raise
+                    continue
+                if t not in seen:
+                    seen.add(t)
+                    texts.append(t)
+            acc.count(transitions=len(field_grid(kind, cid)))
+            for tv in extreme_templates(kind, cid):
+                acc.count(states=1, transitions=1, evaluations=1)
+                try:
+                    p = base.with_template_value(T.to_lib(kind, tv))
+                except InvalidPatternError:
+                    acc.outcome("with_template_value: InvalidPatternError")
+                    continue
+                except Exception as e:  # noqa: BLE001
+                    if exc_origin(e) == "harness":
+                        raise
+                    month = tv[0] if kind == "annual" else (tv[2] if kind != "time" else 0)
+                    if "mtext" in pat.names and month > 12:
+                        acc.outcome("with_template_value raised for a template month without a name (month-name side condition)")
+                        continue
+                    acc.violation("C08/%s/with_template_value/%s/%s" % (kind, type(e).__name__, text_site(e)),
+                                  "%s.create(%r).with_template_value(%s) raised %s: %s" % (KCLS[kind].__name__, pat.text, tv, type(e).__name__, str(e)[:200]),
+                                  {"kind": kind, "pattern": pat.text, "template": tv})
+                    continue
+                info = {"kind": kind, "pattern": pat.text, "culture": "", "template": tv, "replayable": False}
+                for i, t in enumerate(texts):
+                    check_parse(acc, kind, p, t, info, i < 2)
+    return acc
+
+
+# ---------------------------------------------------------------------------------------------------------------
 # driver
 # ---------------------------------------------------------------------------------------------------------------
 
@@ -409,6 +555,23 @@ def run(ctx):
     if not only or "templates" in only:
         for acc in pmap(template_worker, rot([(cid, tier) for cid in CalendarSystem.ids])):
             ctx.merge_part("templates", acc)
+    if not only or "extreme-templates" in only:
+        tasks = []
+        all_cids = tuple(CalendarSystem.ids)
+        for kind in kinds:
+            if kind in ("offset", "duration"):
+                continue                      # no template value
+            n = len([p for p in c07.pattern_list(kind, tier) if p.delim in EXTREME_DELIMS])
+            size = 25 if kind == "date" else 60
+            for lo in range(0, n, size):
+                cids = all_cids if kind == "date" else (("ISO", "Hebrew Civil", "Coptic") if kind == "datetime" and tier == "thorough" else ("ISO",))
+                if kind == "date":
+                    cids = ("ISO",) + tuple(c for c in all_cids if c != "ISO")
+                tasks.append((kind, tier, lo, min(n, lo + size), cids))
+        for acc in pmap(extreme_worker, rot(tasks)):
+            ctx.merge_part("extreme-templates", acc)
+        ctx.cap("extreme templates: generated patterns with the quoted delimiter / fixed / composite shapes only; non-ISO calendar templates for LocalDate patterns%s" % (
+            " and LocalDateTime (Hebrew Civil, Coptic)" if tier == "thorough" else ""))
     if not only or "create-short" in only:
         n = G.count_strings(G.SIGMA, 3)
         tasks = []
@@ -463,6 +626,13 @@ def replay(rec) -> bool:
                 return "/with_calendar/" in key and type(e).__name__ in key
         if pat is not None and str(case.get("config", "")).startswith("with_calendar("):
             pat = pat.with_calendar(CalendarSystem.for_id(case["config"][len("with_calendar("):-1]))
+    if pat is not None and "template" in case:
+        tv = case["template"]
+        tv = tuple(tv) if isinstance(tv, list) else tv
+        try:
+            pat = pat.with_template_value(T.to_lib(kind, tv))
+        except Exception as e:  # noqa: BLE001
+            return "/with_template_value/" in key and type(e).__name__ in key
     if pat is not None and "text" in case:
         check_parse(acc, kind, pat, case["text"], dict(case), True)
     return key in acc.violations
